@@ -272,42 +272,48 @@ void Image::load(FILE* f) {
     // storage. Grayscale data is not - we have to expand it into color data. To
     // do so, we copy the gray channel to all color channels starting from the
     // end of the image (so we won't incorrectly overwrite unexpanded data).
+    // Both source values are read before anything is written because the
+    // first pixel's expanded form overlaps its own source data.
     if (format == Format::GRAYSCALE_PPM) {
       size_t dest_stride = this->has_alpha ? 4 : 3;
       size_t src_stride = this->has_alpha ? 2 : 1;
       for (ssize_t y = this->height - 1; y >= 0; y--) {
         for (ssize_t x = this->width - 1; x >= 0; x--) {
           if (this->channel_width == 8) {
-            uint8_t v = this->data.as8[y * this->width * src_stride + x];
+            uint8_t v = this->data.as8[(y * this->width + x) * src_stride];
+            uint8_t va = this->has_alpha ? this->data.as8[(y * this->width + x) * src_stride + 1] : 0;
             this->data.as8[(y * this->width + x) * dest_stride + 0] = v;
             this->data.as8[(y * this->width + x) * dest_stride + 1] = v;
             this->data.as8[(y * this->width + x) * dest_stride + 2] = v;
             if (this->has_alpha) {
-              this->data.as8[(y * this->width + x) * dest_stride + 3] = this->data.as8[y * this->width * src_stride + x + 1];
+              this->data.as8[(y * this->width + x) * dest_stride + 3] = va;
             }
           } else if (this->channel_width == 16) {
-            uint16_t v = this->data.as16[y * this->width * src_stride + x];
+            uint16_t v = this->data.as16[(y * this->width + x) * src_stride];
+            uint16_t va = this->has_alpha ? this->data.as16[(y * this->width + x) * src_stride + 1] : 0;
             this->data.as16[(y * this->width + x) * dest_stride + 0] = v;
             this->data.as16[(y * this->width + x) * dest_stride + 1] = v;
             this->data.as16[(y * this->width + x) * dest_stride + 2] = v;
             if (this->has_alpha) {
-              this->data.as16[(y * this->width + x) * dest_stride + 3] = this->data.as16[y * this->width * src_stride + x + 1];
+              this->data.as16[(y * this->width + x) * dest_stride + 3] = va;
             }
           } else if (this->channel_width == 32) {
-            uint32_t v = this->data.as32[y * this->width * src_stride + x];
+            uint32_t v = this->data.as32[(y * this->width + x) * src_stride];
+            uint32_t va = this->has_alpha ? this->data.as32[(y * this->width + x) * src_stride + 1] : 0;
             this->data.as32[(y * this->width + x) * dest_stride + 0] = v;
             this->data.as32[(y * this->width + x) * dest_stride + 1] = v;
             this->data.as32[(y * this->width + x) * dest_stride + 2] = v;
             if (this->has_alpha) {
-              this->data.as32[(y * this->width + x) * dest_stride + 3] = this->data.as32[y * this->width * src_stride + x + 1];
+              this->data.as32[(y * this->width + x) * dest_stride + 3] = va;
             }
           } else if (this->channel_width == 64) {
-            uint64_t v = this->data.as64[y * this->width * src_stride + x];
+            uint64_t v = this->data.as64[(y * this->width + x) * src_stride];
+            uint64_t va = this->has_alpha ? this->data.as64[(y * this->width + x) * src_stride + 1] : 0;
             this->data.as64[(y * this->width + x) * dest_stride + 0] = v;
             this->data.as64[(y * this->width + x) * dest_stride + 1] = v;
             this->data.as64[(y * this->width + x) * dest_stride + 2] = v;
             if (this->has_alpha) {
-              this->data.as64[(y * this->width + x) * dest_stride + 3] = this->data.as64[y * this->width * src_stride + x + 1];
+              this->data.as64[(y * this->width + x) * dest_stride + 3] = va;
             }
           }
         }
